@@ -579,7 +579,8 @@ class C16(E1Prop):
             "that threads touch the same storage elements; writer workloads on reference-returning stacks with the lattice points dealt round-robin "
             "to the threads = disjoint but adjacent elements). Oracle: ThreadSanitizer reports nothing (halt_on_error) and every thread's digest "
             "equals the digest of a sequential execution of the same list. A deliberately racy control workload must be reported by TSan first, "
-            "otherwise the run is inconclusive. non-trivial = two threads touch the same (readers) or adjacent (writers) storage elements; distinct "
+            "otherwise the run is inconclusive. Both an ISA-extension build and a plain build; 24 cold-start processes (the first index computations "
+            "of the process are concurrent disjoint writes into an empty field). non-trivial = two threads touch the same (readers) or adjacent (writers) storage elements; distinct "
             "by workload hash")
     min_eval = 500
     assumptions = ("schedules are not enumerated: the claim rests on ThreadSanitizer's happens-before analysis of the accesses the generated workloads perform",)
@@ -588,8 +589,26 @@ class C16(E1Prop):
     level_note = "trusted: ThreadSanitizer (g++ 12 runtime) as race oracle; rapidcheck; std::thread"
 
     def harnesses(self, tier):
-        fl = TSAN + zoo.isa_flags()
-        return [H("tsan_C16", "tsan_C16.cpp", shards=16, flags=fl, link_flags=["-fsanitize=thread"], env=TSAN_ENV)]
+        # two builds: with the host's instruction-set extensions (pdep Morton path) and plain (the portable #else code)
+        return [H("tsan_C16", "tsan_C16.cpp", shards=16, flags=TSAN + zoo.isa_flags(), link_flags=["-fsanitize=thread"], env=TSAN_ENV),
+                H("tsan_C16_plain", "tsan_C16.cpp", shards=16, flags=TSAN, link_flags=["-fsanitize=thread"], env=TSAN_ENV)]
+
+    def cold_starts(self, hs):
+        """Fresh processes whose first index computations are concurrent (lazy shared state would race only there)."""
+        jobs = [(h, k) for h in hs for k in range(6) for _ in range(2)]
+
+        def one(job):
+            h, k = job
+            rc, log, _ = core.run([h.bin], env=dict(TSAN_ENV, VERIF_TSAN_COLD=str(k)), timeout=600)
+            return h, k, rc, log
+        viol = 0
+        for h, k, rc, log in core.parallel(one, jobs):
+            if rc != 0:
+                p = core.save_replay(self.pid, {"property": self.pid, "kind": "cold-start", "harness": h.name, "cold_start_index": k, "exit": rc, "log_tail": log[-6000:]})
+                core.log(f"[C16] cold-start workload {k} of {h.name}: exit {rc}\n{log[-2500:]}")
+                e1.violation(self.pid, p)
+                viol += 1
+        return viol, len(jobs)
 
     def check(self, tier, seed):
         hs = self.harnesses(tier)
@@ -600,8 +619,13 @@ class C16(E1Prop):
         rc, log, _ = core.run([hs[0].bin], env=dict(TSAN_ENV, VERIF_TSAN_CONTROL="1"), timeout=300)
         if "ThreadSanitizer: data race" not in log or rc == 0:
             raise core.InfraError("positive control: ThreadSanitizer did not report the deliberately racy workload; the environment cannot carry the claim\n" + log[-1500:])
+        cold_viol, cold_n = self.cold_starts(hs)
+        if cold_viol:
+            core.write_evidence(self.pid, tier, seed, self.level, {"evaluations": cold_n, "distinct_nontrivial": 0, "rule": self.rule, "samples": [{"cold_start": "violation"}]}, 0.0, violations=cold_viol)
+            return 1
         return e1.check(self.pid, tier, seed, hs, self.level, self.rule, self.assumptions, min_eval=self.min_eval,
-                        extra_cov={"positive_control": "two writers on one coordinate: reported by ThreadSanitizer"})
+                        extra_cov={"positive_control": "two writers on one coordinate: reported by ThreadSanitizer",
+                                   "cold_start_processes": cold_n})
 
 
 from . import c15 as _c15  # noqa: E402
